@@ -38,6 +38,18 @@ pub fn set_virtual(on: bool) {
         .clear();
 }
 
+/// Order in which a virtual timer hands out timeouts that expired at the same instant: oldest
+/// first (default) or newest first. The real timer wheel promises neither.
+static TIE_NEWEST_FIRST: AtomicBool = AtomicBool::new(false);
+
+pub fn set_timer_tie_newest_first(on: bool) {
+    TIE_NEWEST_FIRST.store(on, Ordering::SeqCst);
+}
+
+pub(crate) fn timer_tie_newest_first() -> bool {
+    TIE_NEWEST_FIRST.load(Ordering::SeqCst)
+}
+
 pub fn is_virtual() -> bool {
     VIRTUAL.load(Ordering::SeqCst)
 }
